@@ -561,7 +561,14 @@ func (e *Eng) typeInv(v Val, st *State) string {
 				facts = append(facts, sx("<", c[0], st.Alloc))
 			}
 			return 4
-		case *types.Pointer, *types.Map, *types.Chan:
+		case *types.Pointer:
+			if st != nil {
+				facts = append(facts, sx("<", c[0], st.Alloc))
+			}
+			return 1
+		case *types.Map, *types.Chan:
+			// never interior: nil or a heap object
+			facts = append(facts, sx(">=", c[0], "0"))
 			if st != nil {
 				facts = append(facts, sx("<", c[0], st.Alloc))
 			}
